@@ -150,6 +150,41 @@ Definition j_ndt_u32 (f : jdate -> Z -> val) (args : list val) (out : val) : ver
   | _ => JSkip
   end.
 
+(* operator month stepping on a naive date-time: the value, PANIC where the checked form has nothing *)
+Definition j_ndt_u32_op (f : jdate -> Z -> val) (args : list val) (out : val) : verdict :=
+  match args with
+  | [a; VInt n] => match jndt_arg a with
+                   | Some (x, s, fr) =>
+                       if in_u32 n then judge_eq (unsome_or_panic (with_time s fr (f x n))) out else JSkip
+                   | None => JSkip end
+  | _ => JSkip
+  end.
+(* quarter, common-era year, days in month and the calendar fields of the date part of a naive date-time *)
+Definition exp_ndt_prov (x : jdate) : val :=
+  VTup [VInt ((jm x - 1) / 3 + 1); val_of_bool (1 <=? jy x); VInt (if 1 <=? jy x then jy x else 1 - jy x);
+        VInt (days_in_month (is_leap (jy x)) (jm x)); VInt (jy x); VInt (jm x); VInt (jm x - 1);
+        VInt (jd x); VInt (jd x - 1); VInt (jo x); VInt (jo x - 1); VInt (weekday_of_dn (jn x))].
+(* two weeks (date, first weekday) are the same week exactly when they start on the same day; equal
+   weeks hash equally (distinct weeks may collide: no claim).  Weeks whose first day falls outside
+   the range of dates: no claim. *)
+Definition j_weq (args : list val) (out : val) : verdict :=
+  match args with
+  | [a; VInt w1; b; VInt w2] =>
+      match jd_arg a, jd_arg b with
+      | Some x, Some z =>
+          if (0 <=? w1) && (w1 <=? 6) && (0 <=? w2) && (w2 <=? 6) then
+            let f1 := week_first x w1 in let f2 := week_first z w2 in
+            if dn_in_range f1 && dn_in_range f2 then
+              let e := f1 =? f2 in
+              if e then judge_eq (VTup [VInt 1; VInt 0; VInt 1]) out
+              else if val_eqb out (VTup [VInt 0; VInt 1; VInt 0]) || val_eqb out (VTup [VInt 0; VInt 1; VInt 1]) then JOk
+              else JBad B"distinct-weeks-compare-equal"
+            else JSkip
+          else JSkip
+      | _, _ => JSkip end
+  | _ => JSkip
+  end.
+
 Definition judge (op : bytes) (args : list val) (out : val) : verdict :=
   if op_is op "d8.addm" then j_d_u32 (fun x n => exp_shift x n) args out
   else if op_is op "d8.subm" then j_d_u32 (fun x n => exp_shift x (- n)) args out
@@ -208,5 +243,19 @@ Definition judge (op : bytes) (args : list val) (out : val) : verdict :=
         | Some f, Some (x, sc, fr) =>
             if field_arg_ok f v then judge_eq (with_time sc fr (exp_with f x v)) out else JSkip
         | _, _ => JSkip end
+    | _ => JSkip end
+  else if op_is op "d8.ndt.opaddm" then j_ndt_u32_op (fun x n => exp_shift x n) args out
+  else if op_is op "d8.ndt.opsubm" then j_ndt_u32_op (fun x n => exp_shift x (- n)) args out
+  else if op_is op "d8.ndt.prov" then
+    match args with
+    | [a] => match jndt_arg a with Some (x, _, _) => judge_eq (exp_ndt_prov x) out | None => JSkip end
+    | _ => JSkip end
+  else if op_is op "d8.months_u32" then
+    match args with [VInt n] => if in_u32 n then judge_eq (VInt n) out else JSkip | _ => JSkip end
+  else if op_is op "d8.weq" then j_weq args out
+  else if op_is op "d8.pnthwd" then
+    match args with
+    | [VInt y; VInt m; VInt w; VInt n] =>
+        if in_i32 y && in_u32 m && (0 <=? w) && (w <=? 6) && in_u8 n then judge_eq (unsome_or_panic (exp_nth y m w n)) out else JSkip
     | _ => JSkip end
   else JSkip.
